@@ -355,6 +355,8 @@ func mapString(m map[string]string) string {
 
 // ---------------------------------------------------------------- generation
 
+var e4PrereleasePool = []string{"v1.3.0-alpha.1", "v1.3.0-alpha.2", "v1.3.0-beta.1", "v1.3.0-rc.1", "v1.4.0-rc.1"}
+
 var e4VersionPool = []string{"v0.1.0", "v0.2.0", "v1.0.0", "v1.0.1", "v1.1.0", "v1.2.0-rc.1", "v1.2.0", "v1.10.0", "v1.9.3"}
 
 func e4GenUniverse(r *rand.Rand, tier string) *e4Scenario {
@@ -381,6 +383,7 @@ func e4GenUniverse(r *rand.Rand, tier string) *e4Scenario {
 		np = 2 + r.IntN(7)
 	}
 	used := map[string]bool{}
+	sharedName := r.IntN(4) == 0
 	for i := 0; i < np; i++ {
 		p := e4Project{Repo: r.IntN(nr)}
 		if r.IntN(3) != 0 {
@@ -392,10 +395,16 @@ func e4GenUniverse(r *rand.Rand, tier string) *e4Scenario {
 		}
 		used[p.path(sc)] = true
 		nv := 1 + r.IntN(5)
-		perm := r.Perm(len(e4VersionPool))
+		pool := e4VersionPool
+		if r.IntN(7) == 0 {
+			// a project that has never been released: every tag is a prerelease
+			pool = e4PrereleasePool
+			nv = min(nv, len(pool))
+		}
+		perm := r.Perm(len(pool))
 		var vs []string
 		for _, k := range perm[:nv] {
-			v := e4VersionPool[k]
+			v := pool[k]
 			if p.Major != "" {
 				v = p.Major + v[strings.IndexByte(v, '.'):]
 			}
@@ -406,6 +415,9 @@ func e4GenUniverse(r *rand.Rand, tier string) *e4Scenario {
 			name := ""
 			if r.IntN(2) == 0 {
 				name = fmt.Sprintf("proj%d", i)
+			}
+			if sharedName && r.IntN(3) != 0 {
+				name = "lib" // several projects that call themselves the same
 			}
 			p.Versions = append(p.Versions, e4Version{Version: v, Name: name})
 		}
